@@ -22,9 +22,9 @@ CHECKS = {
          "Trusted: the normalisation (status code, rows, per-entry statuses, schemas; not message texts).",
          "DESIGN.md 6/C17"),
  "C20": ("exploration",
-         "deterministic simulation with fault injection: structure- and byte-level perturbed requests to every RPC/endpoint, failing stream sends, injected fail-stop store errors, and concurrent admin/data mixes under the seeded scheduler; panics, deadlock/livelock verdicts, watchdog, well-formedness of every answer, and a health probe afterwards",
-         "Four sub-workloads (Bigtable single requests, Bigtable concurrent mixes, GCS single requests incl. batch sub-response equality, GCS concurrent mixes) with the oracle: no panic, a gRPC status or well-formed HTTP error, no hang, service still works, kept data intact, lock map empty. The data-race clause is NOT decided (a one-task-at-a-time simulator cannot see races).",
-         "Trusted: the transport stubs (a handler panic is observed directly). One recorded finding (deleted table object vs. re-created table on disk).",
+         "deterministic simulation with fault injection: structure- and byte-level perturbed requests to every RPC/endpoint, failing stream sends, injected fail-stop store errors, and concurrent admin/data mixes under the seeded scheduler; panics, deadlock/livelock verdicts, watchdog, well-formedness of every answer, and a health probe afterwards (plus, for the data-race clause only, a race-detector run of real-goroutine mixes, which is runtime monitoring)",
+         "Four sub-workloads (Bigtable single requests, Bigtable concurrent mixes, GCS single requests incl. batch sub-response equality, GCS concurrent mixes) with the oracle: no panic, a gRPC status or well-formed HTTP error, no hang, service still works, kept data intact, lock map empty. The data-race clause cannot be seen by a one-task-at-a-time simulator; it is covered by a supplement that is runtime monitoring, not simulation (the same kinds of mixes on real goroutines in a go build -race binary, 4 x 6 s quick / 8 x 90 s thorough), reported separately in the evidence.",
+         "Trusted: the transport stubs (a handler panic is observed directly); for the race supplement, the Go race detector (a report is a true race, silence proves nothing).",
          "DESIGN.md 6/C20"),
  "C02": ("exploration",
          "deterministic simulation: seeded request programs with protocol-level faults (lost responses, duplicated and re-sent ranges, status queries, server restart between chunks), simulated wall clock, refinement against an object model with full-state read-back",
@@ -43,7 +43,7 @@ CHECKS = {
          "DESIGN.md 6/C07"),
  "C08": ("fault_enumeration",
          "deterministic simulation with crash injection: process-kill images at seeded scheduling points (request boundaries, engine calls, goleveldb file operations incl. torn writes, each system call of metadata persistence and clear/create, during recovery), repeated cycles, recovered state checked against the set of admissible states",
-         "The disk engine is killed at a drawn (thorough tier: every one of the first 192) scheduling point of admin+data programs, restarted on the image through the real start-up path, and must serve the acknowledged state with each in-flight request wholly applied or absent; up to 3 cycles, also clean stops and kills during recovery.",
+         "The disk engine is killed at a drawn (thorough tier: every one of the first 192) scheduling point of admin+data programs, restarted on the image through the real start-up path, and must serve the acknowledged state with each in-flight request wholly applied or absent; up to 3 cycles, also clean stops and kills during recovery. A further sub-workload lets 2-3 clients administer and write the same tables concurrently, stops the emulator at quiescence and requires the restarted one to serve the same state.",
          "Trusted: process-kill semantics (completed system calls survive; no page-cache loss is claimed), the consistent-image lock around goleveldb file operations, the registry model. Two recorded findings (non-atomic prefix / family drops) are listed in known_findings.json.",
          "DESIGN.md 6/C08"),
  "C09": ("fault_enumeration",
@@ -97,8 +97,8 @@ CHECKS = {
          "Trusted: the reference model of C13 (btmodel.go rmw).",
          "DESIGN.md 6/C13"),
  "C14": ("exploration",
-         "deterministic simulation: seeded admin+data programs over several tables, restart/kill-image faults for the disk engine, refinement against a registry model",
-         "Admin and data requests over 2 parents x 3 table ids are checked against a registry model after every request (NotFound/AlreadyExists where named, all-or-none family modifications, exact DropRowRange), on all engines, with restarts of the disk engine in between.",
+         "deterministic simulation: seeded admin+data programs over several tables, restart/kill-image faults for the disk engine, refinement against a registry model; concurrent admin/data histories on one table name under the seeded scheduler checked for linearizability (porcupine) against the registry model",
+         "Admin and data requests over 2 parents x 3 table ids are checked against a registry model after every request (NotFound/AlreadyExists where named, all-or-none family modifications, exact DropRowRange), on all engines, with restarts of the disk engine in between. A quarter of the runs are concurrent histories (create/delete/get/list/family changes/writes/reads/drops on one table name) that must have a serial explanation.",
          "Trusted: the registry model (btseq.go).",
          "DESIGN.md 6/C14"),
  "C19": ("exploration",
